@@ -325,6 +325,36 @@ func c06Position(c *Ctx) {
 			continue
 		}
 		kind, elem, pos := classifyListStore(w, sts[0].Val, "Message.headers")
+		// a defensive range check on the computed position (pos < 0 || pos > len(headers)) guards a case the position
+		// finder's summary excludes (0 <= pos <= len(headers)): its branch is infeasible and is not followed
+		if ph, isPhi := strip(pos).(*ssa.Phi); isPhi && pos != nil {
+			outOfRange := func(a Atom, _ *ssa.If) (bool, bool) {
+				isPos := func(v ssa.Value) bool {
+					cc := w.resultOfCallTo(v, sp.pos, 0)
+					if cc == nil {
+						return false
+					}
+					_, okS := w.posSummary(cc.Common().StaticCallee(), map[*ssa.Function]bool{})
+					return okS
+				}
+				switch a.Kind {
+				case "ltk": // pos < K with K <= 0 is false
+					if a.K <= 0 && isPos(a.X) {
+						return true, false
+					}
+				case "lt": // len(headers) < pos is false
+					if x, isLen := lenOf(a.X); isLen && isPos(a.Y) {
+						if _, isH := isLoadOf(x, "Message.headers"); isH {
+							return true, false
+						}
+					}
+				}
+				return false, false
+			}
+			if vals := valuesUnder(f, ph, w.under(outOfRange)); len(vals) == 1 {
+				pos = vals[0]
+			}
+		}
 		pc := w.resultOfCallTo(pos, sp.pos, 0)
 		c.check(kind == "insert-one" && pc != nil && isParam(f, callArg(pc, -1), 0), r, sp.add+"/insert-at-computed-position", w.ipos(sts[0]), "insert-one at "+sp.pos+"()", "the header is not inserted (one element, nothing dropped) at the position computed by "+sp.pos+"()")
 		if kind == "insert-one" {
